@@ -185,7 +185,30 @@ type Universe struct {
 }
 
 func newUniverse(p *Program) *Universe {
-	return &Universe{prog: p, structs: map[string]*StructInfo{}, typeIDs: map[string]int{}, typeByID: map[int]types.Type{}, strLits: map[string]int{}, funcIDs: map[string]int{}, funcByID: map[int]string{}}
+	u := &Universe{prog: p, structs: map[string]*StructInfo{}, typeIDs: map[string]int{}, typeByID: map[int]types.Type{}, strLits: map[string]int{}, funcIDs: map[string]int{}, funcByID: map[int]string{}}
+	// pre-register every named type of the repository (and its pointer type) so that type ids and
+	// "implements" facts do not depend on the order in which functions are verified
+	for _, pp := range sortedKeys(p.Pkgs) {
+		if !strings.HasPrefix(pp, modPath) {
+			continue
+		}
+		sc := p.Pkgs[pp].Types.Scope()
+		for _, nm := range sc.Names() {
+			tn, ok := sc.Lookup(nm).(*types.TypeName)
+			if !ok || tn.IsAlias() {
+				continue
+			}
+			if _, isI := tn.Type().Underlying().(*types.Interface); isI {
+				continue
+			}
+			if nt, ok := tn.Type().(*types.Named); ok && nt.TypeParams().Len() > 0 {
+				continue
+			}
+			u.typeID(tn.Type())
+			u.typeID(types.NewPointer(tn.Type()))
+		}
+	}
+	return u
 }
 
 func sanitize(s string) string {
